@@ -82,6 +82,14 @@ def run(ctx):
         m = importlib.util.module_from_spec(sp)
         sp.loader.exec_module(m)
         m.run_ext(ctx)
+    # 7. extension: the notary SERVICE above that pool - spec/notarysvc, harness/c08notarysvc
+    ep = os.path.join(os.path.dirname(os.path.abspath(__file__)), "c08_notarysvc.py")
+    if os.path.exists(ep):
+        import importlib.util
+        sp = importlib.util.spec_from_file_location("check_c08_notarysvc", ep)
+        m = importlib.util.module_from_spec(sp)
+        sp.loader.exec_module(m)
+        m.run_ext(ctx)
 
 
 def selftest(ctx, events):
